@@ -87,6 +87,9 @@ func (b *stateBackend) Store(
 		if err := verifyBlockSuccession(b.database, block); err != nil {
 			return err
 		}
+		if err := verifyOldRootMatchesHead(b.database, stateUpdate); err != nil {
+			return err
+		}
 
 		st, err := state.New(stateUpdate.OldRoot, b.stateDB, batch)
 		if err != nil {
